@@ -151,9 +151,20 @@ def cutHeight (D : Dendro α) (n nClusters : Nat) (threshold : Option α) : Exce
       | some thr => .ok (some (if cut < thr then thr else cut))   -- max(cut, threshold)
   else .ok none
 
-/-- the dendrogram that is cut: reordered by height when `return_dendrogram` and the heights are not sorted -/
+/-- no merge is lower than a merge it contains: `np.all(child_height.max(axis=1) <= height)` with `child_height`
+    the height of a child that is a merge, `-inf` for a leaf -/
+def noInversion (n : Nat) (D : Dendro α) : Bool :=
+  D.all fun r =>
+    (if r.i < n then true else match D[r.i - n]? with | some c => !decide (r.h < c.h) | none => false) &&
+    (if r.j < n then true else match D[r.j - n]? with | some c => !decide (r.h < c.h) | none => false)
+
+/-- the dendrogram that is cut: reordered by height when `return_dendrogram`, the heights are not sorted and no merge
+    is lower than a merge it contains (repaired code: the reordering of a tree with an inversion put a parent row
+    before the row creating its child, a KeyError in `get_labels`; such a tree is now kept as it is) -/
 def cutInput (D0 : Dendro α) (retD : Bool) : Except PyErr (Dendro α) :=
-  if retD && !heightsSorted D0 then reorderDendrogram D0 else pure D0
+  if retD && !heightsSorted D0 then
+    (if noInversion (D0.length + 1) D0 then reorderDendrogram D0 else pure D0)
+  else pure D0
 
 /-- defaults of `n_clusters` (2, or `n` when only a threshold is given) and `check_n_clusters` -/
 def effectiveK (n : Nat) (nClusters : Option Nat) (threshold : Option α) : Except PyErr Nat :=
